@@ -207,7 +207,8 @@ def own_relations(case, ints, floats):
             ex = [v for v in M["verts"] if D["vidx"][v] == -1]
             if ex:
                 bad.append(("indices", "%d of the %d vertices of the active mesh %d are excluded (index -1)" % (len(ex), len(M["verts"]), q))); break
-    if any(D["vidx"][v] != -1 for v in passive - active): bad.append(("indices", "a vertex referenced by isolated meshes only carries an unknown"))
+    # (OLD_ORDERING numbers the vertex references of every mesh, isolated or not: documented in the model, not judged here)
+    if not case["old"] and any(D["vidx"][v] != -1 for v in passive - active): bad.append(("indices", "a vertex referenced by isolated meshes only carries an unknown"))
     seen = set()
     for i, j, o in D["pairs"]:
         k = (min(i, j), max(i, j))
